@@ -26,6 +26,12 @@ print("inner monitors:", _attached, flush=True)
 ZSOCK = sys.argv[1]
 if os.path.exists(ZSOCK):
     os.remove(ZSOCK)
+try:  # the fork server ends with the check that started it
+    import ctypes
+
+    ctypes.CDLL("libc.so.6", use_errno=True).prctl(1, signal.SIGKILL)  # PR_SET_PDEATHSIG
+except Exception:
+    pass
 srv = socket.socket(socket.AF_UNIX, socket.SOCK_STREAM)
 srv.bind(ZSOCK)
 srv.listen(256)
